@@ -447,7 +447,7 @@ int main(int argc, char **argv)
 	vrt_add_class("dg_state", 5);
 	vrt_add_class("dg_bits", 5);
 	vrt_add_class("dg_gen", 5);
-	vrt_set_hang_seconds(30);
+	vrt_set_hang_seconds(90);   /* progress-based: no record from any thread for 90 s */
 	(void)vrt_tid(); /* main = thread 0 */
 	pthread_barrier_init(&g_bar, NULL, NT + 1);
 	pthread_t th[NT];
